@@ -28,15 +28,18 @@ def run(ctx):
                                        weights="len,w in 1..3 (dual = w*len), area in 1..3 by pattern; geometric meshes G4, G7 exact")}
     # 1. the design
     r = ctx.model_check("FVOps", fvops.model_cfg(b["MeshIds"], b["Patterns"], b["MaxFree"], False, fvops.INV_MODEL_C03, emit=True),
-                        name="FVOps[C03]", required_actions=["PickPattern", "PickLink", "FillLinks"], timeout=3000)
+                        name="FVOps[C03]", timeout=3000)
     ctx.cov["exhaustive"] = True
+    # vacuity guard (TLC -coverage is slow, so on a small configuration; the main run is guarded by the number of exported instances)
+    ctx.model_check("FVOps", fvops.model_cfg([2, 8], [13], 1, False, fvops.INV_MODEL_C03), name="FVOps[C03, action coverage]",
+                    required_actions=["PickPattern", "PickLink", "FillLinks"], count=False)
     for inv in ("KernelIsConstantsEvenIfDisconnected", "NoConjIsHermitian"):
         ctx.model_check("FVOps", fvops.model_cfg(b["MeshIds"], [5], 2, False, [inv]), name=f"FVOps[sanity: {inv} must fail]",
                         expect_violation=inv, count=False)
     # 2. spec -> code
     insts = fvops.export_instances(r)
-    if not insts:
-        raise core.MachineryFailure("C03: TLC exported no instance")
+    if len(insts) < 16 * len(b["MeshIds"]):
+        raise core.MachineryFailure(f"C03: TLC exported only {len(insts)} instances")
     ctx.cov["instances_exported"] = len(insts)
     rnd = random.Random(ctx.seed)
     first = {}
@@ -83,15 +86,9 @@ def run(ctx):
                     "events": [(e["ev"], e.get("op", e.get("group")), e.get("src"), e.get("path")) for e in t["ev"]][:12],
                     "first_matrix": t["ev"][0].get("m") if t["kind"] == "exact" else t["ev"][0]["facts"]})
     # canaries (binding self-test); when nothing was accepted the violations above are the verdict
-    if any(traces[n]["kind"] == "exact" for n in accepted):
-        fvops.canary_exact(ctx, traces, accepted, INV, "C03")
-    elif not ctx.violations:
-        raise core.MachineryFailure("C03: no exact trace accepted and no violation reported")
-    if accf:
-        fvops.canary_float(ctx, traces, accepted, INV, "C03", "lap_eq_div_grad")
-        fvops.canary_float(ctx, traces, accepted, INV, "C03", "weighted_lap_max_eigenvalue")
-    elif not ctx.violations:
-        raise core.MachineryFailure("C03: no float trace accepted and no violation reported")
+    if not ctx.violations and (not accf or not any(traces[n]["kind"] == "exact" for n in accepted)):
+        raise core.MachineryFailure("C03: nothing accepted and no violation reported")
+    fvops.canaries(ctx, traces, accepted, INV, "C03", ["lap_eq_div_grad", "weighted_lap_max_eigenvalue"])
     ctx.cov["rule"] = ("one case = one mesh instance (topology, weights, link configuration) replayed into the real builders and "
                        "validated by TLC entry by entry, or one generated float mesh validated through residual facts; non-trivial "
                        "= some link variable differs from 1 (exact) / every float mesh; distinct = distinct instances")
